@@ -171,4 +171,28 @@ def minRadicand (p : Params) : Rat :=
 /-- No evanescent wave is sampled (`k_z` real everywhere). -/
 def noEvanescent (p : Params) : Bool := decide (0 ≤ minRadicand p)
 
+/-! ### One propagator object used repeatedly: the setters between calls
+
+`distance`, `num_oversampling`, `zero_padding`, `refractive_index` have setters that clear the instance
+cache; the wavelength comes with each wavefront.  What a call computes is a function of the *current*
+parameters only (`withParam` then any of the functions above). -/
+
+inductive Setter where
+  | distance (z : Rat)
+  | refractiveIndex (n : Rat)
+  | oversampling (s : Nat)
+  | zeroPadding (q : Rat)
+  | wavelength (lam : Rat)
+deriving Repr
+
+def withParam (p : Params) : Setter → Params
+  | .distance z => { p with z := z }
+  | .refractiveIndex n => { p with n := n }
+  | .oversampling s => { p with s := s }
+  | .zeroPadding q => { p with q := q }
+  | .wavelength lam => { p with lam := lam }
+
+/-- The parameters in force after a sequence of setter calls. -/
+def afterSetters (p : Params) (l : List Setter) : Params := l.foldl withParam p
+
 end HcipyVerif.NearField
